@@ -316,7 +316,7 @@ class Violation:
 
 class Stats:
     FIELDS = ('paths', 'infeasible', 'obligations', 'discharged', 'trivial', 'unknown',
-              'solver_calls', 'solver_s', 'branches', 'realizations', 'truncated')
+              'solver_calls', 'solver_s', 'branches', 'realizations', 'truncated', 'capped')
 
     def __init__(self):
         for f in self.FIELDS:
